@@ -471,6 +471,7 @@ class Verifier(Executor):
         self.unroll = arity is not None
         st = State()
         syms = dict(arity or {})
+        pins = syms.pop("_pin", {})
         params = [a.arg for a in fi.node.args.args]
         for p in params:
             if p == "self" and "self" not in con.types:
@@ -483,6 +484,18 @@ class Verifier(Executor):
                 st.env[p] = {k: self.fresh_value(v, f"{p}.{k}", st, syms) for k, v in t.items()}
             else:
                 st.env[p] = self.fresh_value(t, p, st, syms)
+        for pname, content in pins.items():
+            v = st.env.get(pname)
+            if isinstance(v, Arr):
+                import itertools as _it
+                import numpy as _np
+                a = _np.array(content, dtype=object).reshape(v.obj.shape)
+                isb = v.obj.dtype == "bool"
+                ks = [z3.Int(fresh_name("p")) for _ in v.obj.shape]
+                term = z3.K(INT, z3.BoolVal(False) if isb else z3.IntVal(0)) if len(ks) == 1 else z3.Lambda(ks, z3.BoolVal(False) if isb else z3.IntVal(0))
+                for ix in _it.product(*[range(d) for d in v.obj.shape]):
+                    term = z3.Store(term, *[z3.IntVal(i) for i in ix], z3.BoolVal(bool(a[ix])) if isb else z3.IntVal(int(a[ix])))
+                st.heap[v.obj.id] = term
         for g, t in con.ghost.items():
             st.ghost_env[g] = self.fresh_value(t, g, st, syms)
         st.ghost_env.update(syms)
